@@ -30,6 +30,16 @@ def _number_validator(self, number):
         self._problem.cells.check_number(number)
 
 
+def _link_pointee_to_problem(self, obj):
+    """
+    Links an object this cell is made to point at (material, universe) to the cell's problem,
+    as the cell's surfaces and complements collections do for the dividers put into them.
+    Without the link the object's reverse look-up (``.cells``) cannot see this cell.
+    """
+    if obj is not None and self._problem and not obj._problem:
+        obj.link_to_problem(self._problem)
+
+
 def _link_geometry_to_cell(self, geom):
     geom._add_new_children_to_cell(geom, cell=self)
     geom._set_cell(self)
@@ -199,6 +209,7 @@ class Cell(Numbered_MCNP_Object):
     def universe(self, value):
         if not isinstance(value, Universe):
             raise TypeError("universe must be set to a Universe")
+        _link_pointee_to_problem(self, value)
         self._universe.universe = value
 
     @property
@@ -328,7 +339,12 @@ class Cell(Numbered_MCNP_Object):
         """
         pass
 
-    @make_prop_pointer("_material", (Material, type(None)), deletable=True)
+    @make_prop_pointer(
+        "_material",
+        (Material, type(None)),
+        validator=_link_pointee_to_problem,
+        deletable=True,
+    )
     def material(self):
         """
         The Material object for the cell.
@@ -635,6 +651,11 @@ class Cell(Numbered_MCNP_Object):
             input = getattr(self, attr, None)
             if input:
                 input.link_to_problem(problem)
+        # what the cell already points at (a cell built from scratch and then added to a problem)
+        for surface in self.surfaces:
+            _link_pointee_to_problem(self, surface)
+        _link_pointee_to_problem(self, self._material)
+        _link_pointee_to_problem(self, self._universe.universe)
 
     def __str__(self):
         if self.material:
